@@ -114,19 +114,23 @@ def _repo_sources():
     return out
 
 
-def refute_search(mod, proof, violations, ix, workdir, seed):
-    """directed native search on the real tracer: both constant samplers x all 256 parent flag bytes x remote/local"""
-    import re as _re, subprocess
-    srcs = _repo_sources()
-    binpath = R.build_native("c05_native", [_os.path.join(R.core.HERE, "replay", "c05_native.cc")] + [_os.path.join(R.core.REPO, s) for s in srcs])
-    full = subprocess.run([binpath, "search"], stdout=subprocess.PIPE, stderr=subprocess.STDOUT, text=True, timeout=300).stdout
-    m = _re.findall(r"^FOUND (.*)$", full, _re.M)
-    if not m:
-        return None
-    args = m[-1].split()
-    r = R.native_check("c05_native", ["c05_native.cc"], args, repo_sources=srcs)
-    r["input"] = {"driver_args": args, "meaning": "child <sampler 0=AlwaysOff 1=AlwaysOn> <parent flags byte> <parent remote>", "found_by": "directed native search (refute mode)"}
-    return r if r["reproduced"] else None
+def _refute(search_cmd, meaning):
+    def h(mod, proof, violations, ix, workdir, seed):
+        import re as _re, subprocess
+        srcs = _repo_sources()
+        binpath = R.build_native("c05_native", [_os.path.join(R.core.HERE, "replay", "c05_native.cc")] + [_os.path.join(R.core.REPO, s) for s in srcs])
+        full = subprocess.run([binpath, search_cmd], stdout=subprocess.PIPE, stderr=subprocess.STDOUT, text=True, timeout=300).stdout
+        m = _re.findall(r"^FOUND (.*)$", full, _re.M)
+        if not m:
+            return None
+        args = m[-1].split()
+        r = R.native_check("c05_native", ["c05_native.cc"], args, repo_sources=srcs)
+        r["input"] = {"driver_args": args, "meaning": meaning, "found_by": "directed native search (refute mode)"}
+        return r if r["reproduced"] else None
+    return h
 
 
-refuters = {"StartSpan_identity": refute_search, "StartSpan_parent": refute_search}
+# directed native searches on the real tracer: both constant samplers x all 256 parent flag bytes x remote/local; every combination of
+# (parent alternative, explicit parent valid, root marker, active span)
+refuters = {"StartSpan_identity": _refute("search", "child <sampler 0=AlwaysOff 1=AlwaysOn> <parent flags byte> <parent remote>"),
+            "StartSpan_parent": _refute("search_parent", "parent <0=SpanContext 1=Context> <explicit parent valid> <root marker> <span active on the thread>")}
